@@ -154,12 +154,13 @@ Section Proofs.
   Hypothesis box : box_laws seal open_box.
 
   Theorem export_import_seed p salt cke n1 n2 e ex inn m sd :
+    Unlock.ends_nul p = false ->
     create_seed H PBKDF2 e p = Bip39.Ok (m, sd) ->
     import_keystore_seed H PBKDF2 kdf open_box (persist_entropy kdf seal p salt cke n1 n2 e ex inn) p
     = Some (Bip39.Ok (e, sd)).
   Proof.
-    intros C. unfold import_keystore_seed, persist_entropy. cbn [j_salt j_cent_enc j_ent_enc].
-    rewrite (open_seal _ _ box), (open_seal _ _ box), C. reflexivity.
+    intros Nn C. unfold import_keystore_seed, persist_entropy. cbn [j_salt j_cent_enc j_ent_enc].
+    rewrite Nn, (open_seal _ _ box), (open_seal _ _ box), C. reflexivity.
   Qed.
 
   Theorem import_wrong_pass p p' salt cke n1 n2 e ex inn :
@@ -167,8 +168,15 @@ Section Proofs.
     import_keystore_seed H PBKDF2 kdf open_box (persist_entropy kdf seal p salt cke n1 n2 e ex inn) p' = None.
   Proof.
     intros N. unfold import_keystore_seed, persist_entropy. cbn [j_salt j_cent_enc j_ent_enc].
+    destruct (Unlock.ends_nul p'); [reflexivity|].
     rewrite (open_other _ _ box) by congruence. reflexivity.
   Qed.
+
+  (* a candidate ending with a zero byte is refused whatever its key (scrypt's HMAC padding would
+     make it collide with the passphrase) *)
+  Theorem import_nul_refused j p : Unlock.ends_nul p = true ->
+    import_keystore_seed H PBKDF2 kdf open_box j p = None.
+  Proof. intros N. unfold import_keystore_seed. rewrite N. reflexivity. Qed.
 
   Lemma import_counter j : 0 <= j_ex j -> import_ex_counter j = Z.max 1 (j_ex j).
   Proof. intros P. unfold import_ex_counter. destruct (j_ex j =? 0) eqn:E; [apply Z.eqb_eq in E|apply Z.eqb_neq in E]; lia. Qed.
